@@ -1610,15 +1610,11 @@ def _apply_constraints_iteratively(
     for iteration in range(max_iter):
         changed = False
 
-        # check if we already resolved everything
-        if all(
-            [
-                all([shape_dict[o][i] is not None for i in range(3)])
-                and all([all([slice_dict[o][i][s] is not None for s in range(2)]) for i in range(3)])
-                for o in object_map.keys()
-            ]
-        ):
-            break
+        # Note: there is deliberately no early exit once every slot is filled. The iteration only ends
+        # after a complete sweep that changed nothing, so every constraint is applied at least once
+        # against the final slices - a constraint that was skipped earlier (its reference object was
+        # still unknown) and contradicts the resolved placement is reported instead of silently
+        # accepted, independent of the order of the constraint list.
 
         # Try to resolve positions from partial_real_position if size is now known
         resolved, slice_dict, errors = _resolve_static_positions_iterative(
